@@ -149,9 +149,14 @@ def check(tier):
     deviate.run(PROP, deviation_bases(tier), dsyms, [(oracles, "c04_floor")], rep)
     items = list(template_programs(tier))
     total = e1.Out()
-    with mp.get_context("fork").Pool(ncpu()) as pool:
-        for o in pool.imap_unordered(e3._Guard(_one, PROP), items, chunksize=128):
-            total.merge(o)
+    from .. import par
+
+    for o in par.pmap_unordered(e3._Guard(_one, PROP), items, chunksize=128):
+        if isinstance(o, par.WorkerDied):
+            _d = e1.Out()
+            _d.violate(PROP, f"{PROP}|worker-process-died", f"{o.why} while checking {repr(o.item)[:300]}", {"item": repr(o.item)[:2000]}, 0)
+            o = _d
+        total.merge(o)
     for k, v in total.stats.items():
         rep.add(k, v)
     rep.add("evaluations", len(items))
